@@ -342,6 +342,13 @@ func c01(c *core.Check) {
 		c01cond(c, cgB)
 	}
 	c.Floor("C01-R8", 3)
+
+	c.Rule("C01-R9", "CAPTURES: capture groups are per line and per pattern — the per-line thread and its capture table are created anew before the first instruction (shared with C05-R1), and every pattern expression gets its own slot in the regexp table, which also keys the capture table (shared with C04-R3)")
+	if pll := c.MustFn("C01-R9", processLogLine); pll != nil {
+		threadFreshness(c, "C01-R9", pll)
+	}
+	tableSlots(c, "C01-R9")
+	c.Floor("C01-R9", 8)
 }
 
 func c01grammar(c *core.Check) {
